@@ -15,6 +15,10 @@ def containsSub (pat : Str) : Str → Bool
   | [] => pat.isEmpty
   | c :: r => isPrefixOf pat (c :: r) || containsSub pat r
 
+/-- a character that a raw (unescaped) JSON string literal cannot contain: quote, backslash,
+control character.  Constant names, base64 and date payloads are free of them. -/
+def keyNeedsEscape (c : Nat) : Bool := c == 34 || c == 92 || c < 32
+
 /-! ### prefixes -/
 
 theorem stripPrefix_eq_some {p s r : Str} : stripPrefix p s = some r ↔ s = p ++ r := by
